@@ -1,6 +1,7 @@
 import SstModel.Generated.Funcs
 import SstModel.Model.Filter
 import SstModel.Props.FuncsTie.FilterIndex
+import SstModel.Props.FuncsTie.Same
 /-
   Function-level tie for filter_block.rs: the regenerated translations of
   `FilterBlockReader::{is_well_formed, num, offset_of, key_may_match}` equal the model functions for every
@@ -8,17 +9,6 @@ import SstModel.Props.FuncsTie.FilterIndex
 -/
 namespace Sst
 open Sst.Rt
-
-/-- equality of outcomes up to the text of a panic site -/
-def Res.same {α} : Res α → Res α → Prop
-  | .ok a, .ok b => a = b
-  | .err c, .err d => c = d
-  | .panic _, .panic _ => True
-  | .diverge, .diverge => True
-  | _, _ => False
-
-theorem Res.same_ok {α} {r : Res α} {a : α} (h : Res.same r (.ok a)) : r = .ok a := by
-  cases r <;> simp_all [Res.same]
 
 theorem Gen_fbr_is_well_formed_tie (data : Bytes) :
     Gen.fbr_is_well_formed data = .ok (FilterBlockReader.isWellFormed data) := by
@@ -70,11 +60,6 @@ theorem Gen_fbr_offset_of_tie (block : Bytes) (oo i : Nat) :
       · cases hs; simp; omega
       · cases hs
     simp [hl, Res.same]
-
-theorem Res.same_cases {α} {r m : Res α} (h : Res.same r m) :
-    (∃ a, r = .ok a ∧ m = .ok a) ∨ (∃ s s', r = .panic s ∧ m = .panic s') ∨
-    (∃ c, r = .err c ∧ m = .err c) ∨ (r = .diverge ∧ m = .diverge) := by
-  cases r <;> cases m <;> simp_all [Res.same]
 
 /-- `FilterBlockReader::key_may_match`: the translation equals the model for every block, every trailer fields,
     every policy, every block offset and key - same answer, or both panic. -/
